@@ -264,6 +264,11 @@ static void gen_files(Tape &t, Result &r, Files &files, std::string &main) {
       }
       r.cls("file-ends-in-directive");
     }
+    // the last line of a file may be a comment without a line break - also one that looks like a directive
+    if (t.chance(1, 8)) {
+      body += t.chance(1, 2) ? " // include \"a\"" : " // x0 := 1";
+      r.cls("file-ends-in-comment-without-newline");
+    }
     if (t.chance(1, 12)) {
       body = FILE_PREFIXES[t.pick(6)] + body;
       r.cls("file-starts-with-BOM-like-bytes");
@@ -523,6 +528,10 @@ static void prop_c15(Tape &t, Result &r) {
         r.cls("file-ends-in-directive");
       else
         b += "m" + std::to_string(f) + "k" + std::to_string(k) + " ";
+    }
+    if (t.chance(1, 8)) {  // a commented-out directive on the last line, without a line break
+      b += "// include \"" + (t.chance(1, 2) ? names[t.pick((unsigned)nfiles)] : std::string("absent9")) + "\"";
+      r.cls("file-ends-in-comment-without-newline");
     }
     files[names[(size_t)f]] = b;
   }
